@@ -1080,6 +1080,8 @@ def is_panic_entry(name):
 
 
 def is_alloc_entry(name):
+    if name in ('@malloc', '@free', '@realloc', '@calloc', '@posix_memalign', '@aligned_alloc', '@memalign'):
+        return True   # the system allocator behind std's default global allocator (fat-LTO modules inline __rdl_*)
     return bool(re.search(r'__rust_(alloc|dealloc|realloc|alloc_zeroed|no_alloc_shim)|__rdl_|__rg_|__rustc.*__rust_(alloc|dealloc|realloc)|handle_alloc_error', name))
 
 
